@@ -236,8 +236,9 @@ ChainValid == ChainTruth(chain)
 PoolValid == \A p \in pool : ScriptsTruth(p, Standard) /\ InsSet(p) \subseteq Avail(UtxoOf(chain), pool)
 
 \* ------------------------------------------------------------------ emission
-Proj == [tip |-> Height(chain), pool |-> pool, ec |-> ec, sc |-> sc]
-Emit == VFEdgeK(View0, Proj, lastAct', lastRes', View0', Proj')
+\* injective (agree is TRUE in every state by the invariant); the harness compares tip and pool, and reports on ec and sc
+Proj == [tip |-> Height(chain), chain |-> chain, k |-> k, pool |-> pool, ec |-> ec, sc |-> sc]
+Emit == VFEdge(Proj, lastAct', lastRes', Proj')
 Universe == [universe |-> TxU, coins |-> Coins, h0 |-> H0, flagheights |-> FlagHeights]
 ASSUME VFRow(Universe)
 ====
